@@ -152,8 +152,8 @@ def r2_cursor(prog, rep: Report, fam: Family, include_mixins: bool):
 STRIP_OK = {"rstrip", "removesuffix"}
 
 
-def r3_terminator(prog, rep: Report, fam: Family):
-    rep.rule("C11.R3", "terminator removal strips exactly one trailing '\\n' from what readline() returned "
+def r3_terminator(prog, rep: Report, fam: Family, rule: str = "C11.R3"):
+    rep.rule(rule, "terminator removal strips exactly one trailing '\\n' from what readline() returned "
              "(siblings agree); strip()/rstrip()/rstrip('\\r\\n') eat characters that belong to the line", floor=2)
     seen = set()
     for c in fam.line_classes:
@@ -167,7 +167,7 @@ def r3_terminator(prog, rep: Report, fam: Family):
         flow = Flow(f.node)
         rets = returns_of(f.node)
         if not rets:
-            rep.unrec("C11.R3", f, "return", "no return statement")
+            rep.unrec(rule, f, "return", "no return statement")
             continue
         for r in rets:
             e = flow.expand(r.value) if r.value is not None else None
@@ -196,7 +196,7 @@ def r3_terminator(prog, rep: Report, fam: Family):
                     if isinstance(st_, ast.If) and "endswith" in src(st_.test):
                         guard = st_
                     st_ = getattr(st_, "_parent", None)
-                rep.check("C11.R3", f, "return", guard is not None,
+                rep.check(rule, f, "return", guard is not None,
                           f"last character sliced off under an endswith guard: {src(r.value)}",
                           f"`{src(sliced)}` cuts the last character unconditionally: an unterminated last line loses a character "
                           f"(in the memory-mapped variant possibly half of a multi-byte character)",
@@ -219,7 +219,7 @@ def r3_terminator(prog, rep: Report, fam: Family):
             else:
                 ok_shape = False
             if not ok_shape:
-                rep.unrec("C11.R3", f, "return", f"returned value is not a method chain over <handle>.readline(): "
+                rep.unrec(rule, f, "return", f"returned value is not a method chain over <handle>.readline(): "
                           f"{src(r.value)}", r.lineno)
                 continue
             verdict, why = True, []
@@ -239,18 +239,18 @@ def r3_terminator(prog, rep: Report, fam: Family):
                     verdict = False
                     why.append(f"{name}() alters line content")
                 else:
-                    rep.unrec("C11.R3", f, "return", f"unclassified string operation .{name}()", r.lineno)
+                    rep.unrec(rule, f, "return", f"unclassified string operation .{name}()", r.lineno)
                     verdict = None
                     break
             if verdict is None:
                 continue
             if verdict and strips == 0 and all(o.func.attr == "decode" for o in ops) and _under_no_terminator_guard(r):
-                rep.ok("C11.R3", f, "return", f"`{src(r)}` on the path where the line read does not end with '\\n': nothing to remove")
+                rep.ok(rule, f, "return", f"`{src(r)}` on the path where the line read does not end with '\\n': nothing to remove")
                 continue
             if verdict and strips == 0:
                 verdict = False
                 why.append("the terminator is never removed")
-            rep.check("C11.R3", f, "return", bool(verdict), f"readline() result post-processed by {src(r.value)}",
+            rep.check(rule, f, "return", bool(verdict), f"readline() result post-processed by {src(r.value)}",
                       "; ".join(why) + f": {src(r.value)}",
                       scenario="a line 'x  ' or 'x\\r' (binary index: terminator is '\\n' only) loses its trailing "
                                "blanks / carriage return", line=r.lineno)
@@ -286,7 +286,7 @@ def _under_no_terminator_guard(r: ast.Return) -> bool:
     return False
 
 
-def r3b_raw_reader(prog, rep: Report, fam: Family):
+def r3b_raw_reader(prog, rep: Report, fam: Family, rule: str = "C11.R3"):
     """every raw line read goes through seek + the (checked) next-line reader; direct slicing of the handle is examined"""
     seen = set()
     for c in fam.line_classes:
@@ -294,6 +294,7 @@ def r3b_raw_reader(prog, rep: Report, fam: Family):
         if f is None or f in seen or f.is_abstract:
             continue
         seen.add(f)
+        fv = prog.resolve_view(c, fam.raw_reader) or f         # a helper that computes the end of the line is read in place
         rep.fn(f)
         handles = fam.handles[c.qual]
         direct = []
@@ -307,23 +308,36 @@ def r3b_raw_reader(prog, rep: Report, fam: Family):
                 if d and len(d) == 2 and d[0] == f.self_name and d[1] in handles:
                     direct.append(n)
         rets = returns_of(f.node)
-        delegates = bool(rets) and all(isinstance(r.value, ast.Call) and isinstance(r.value.func, ast.Attribute)
-                                       and r.value.func.attr == fam.next_reader and isinstance(r.value.func.value, ast.Name)
-                                       and r.value.func.value.id == f.self_name for r in rets)
+        rflow = Flow(f.node)
+
+        def _delegating(v) -> bool:
+            if isinstance(v, ast.Name):
+                v = rflow.expand(v)                       # line = self._read_next_line(); ...; return line
+            return isinstance(v, ast.Call) and isinstance(v.func, ast.Attribute) and v.func.attr == fam.next_reader \
+                and isinstance(v.func.value, ast.Name) and v.func.value.id == f.self_name
+
+        def _no_read(v) -> bool:
+            # a value handed out without touching the file (a remembered line: whether it is current is the derived-state rule's business)
+            return v is not None and not any(isinstance(x, ast.Call) for x in ast.walk(v)) and isinstance(v, (ast.Subscript, ast.Attribute))
+        delegates = bool(rets) and any(_delegating(r.value) for r in rets) and all(_delegating(r.value) or _no_read(r.value) for r in rets)
         if delegates and not direct:
-            rep.ok("C11.R3", f, "raw-reader", "reads through seek + the checked next-line reader")
+            rep.ok(rule, f, "raw-reader", "reads through seek + the checked next-line reader")
             continue
-        bad_find = [n for n in direct if isinstance(n, ast.Subscript) and isinstance(n.slice, ast.Slice) and n.slice.upper is not None
+        vflow = Flow(fv.node)
+        from ..util import expand_all
+        sliced = [n for n in walk_own(fv.node) if isinstance(n, ast.Subscript) and isinstance(n.ctx, ast.Load) and dotted(n.value)
+                  and len(dotted(n.value)) == 2 and dotted(n.value)[0] == fv.self_name and dotted(n.value)[1] in handles]
+        bad_find = [n for n in sliced if isinstance(n.slice, ast.Slice) and n.slice.upper is not None
                     and any(isinstance(x, ast.Call) and isinstance(x.func, ast.Attribute) and x.func.attr in ("find", "index")
-                            for x in ast.walk(n.slice.upper))
-                    and not any(isinstance(t, ast.Compare) and "-1" in src(t) for t in ast.walk(f.node))]
+                            for x in ast.walk(expand_all(n.slice.upper, vflow)))          # end = mm.find(b"\n", start); mm[start:end]
+                    and not any(isinstance(t, ast.Compare) and "-1" in src(t) for t in ast.walk(fv.node))]
         if bad_find:
-            rep.viol("C11.R3", f, "raw-reader", f"`{src(bad_find[0])}` slices the mapping up to find(...): find returns -1 when the last "
+            rep.viol(rule, f, "raw-reader", f"`{src(bad_find[0])}` slices the mapping up to find(...): find returns -1 when the last "
                      f"line has no terminator, so the slice drops the last byte of the file",
                      scenario="file content 'a\\nbb\\nccc' (no final newline) read through a memory-mapped variant: the last line is 'cc'",
                      line=bad_find[0].lineno)
         else:
-            rep.unrec("C11.R3", f, "raw-reader", "the raw reader neither delegates to seek + next-line reader nor uses a recognised idiom")
+            rep.unrec(rule, f, "raw-reader", "the raw reader neither delegates to seek + next-line reader nor uses a recognised idiom")
 
 
 # ---------------------------------------------------------------------------------------------- R4
